@@ -170,6 +170,9 @@ def _repeats_or_none(items, names):
 
 def check_join(case, rec):
     left, right = case["left"], case["right"]
+    alias = bool(case.get("alias_left"))
+    if alias:
+        left = left + left   # what the doubled list holds, as values (the real list holds every item object twice)
     by = R.norm_by(case["by"])
     by1, by2 = R.split_by(by)
     fm = R.first_matches(left, right, by1, by2)
@@ -181,9 +184,12 @@ def check_join(case, rec):
     for join in case["joins"]:
         rec.case((inkey, join), nontrivial)
         rec.trans()
-        one = {"part": "join", "left": left, "right": right, "by": case["by"], "joins": [join]}
+        one = {"part": "join", "left": case["left"], "right": right, "by": case["by"], "joins": [join]}
         # fresh copies for every execution: left_join / inner_join edit the items in place
-        a = di.ListOfDicts([dict(x) for x in left])
+        a = di.ListOfDicts([dict(x) for x in case["left"]])
+        if alias:
+            one["alias_left"] = True
+            a = a * 2   # the same item OBJECTS twice (list semantics of *)
         b = di.ListOfDicts([dict(x) for x in right])
         try:
             out = getattr(a, join)(b, *by)
@@ -240,6 +246,9 @@ def check_agg(case, rec):
         want.append(g)
     a = di.ListOfDicts([dict(x) for x in items])
     try:
+        if case.get("regroup"):
+            # the same list object was grouped (by other keys) and aggregated before
+            a.group_by(*case["regroup"]).aggregate(n=len)
         out = a.group_by(*by).aggregate(n=len, ids=group_digest)
     except Exception as e:
         rec.violation("aggregate", "raised", case, f"{type(e).__name__}: {e}; items={items} by={by}")
@@ -295,6 +304,8 @@ def run_shard(shard, rec):
             for right in rights:
                 case = {"part": "join", "left": left, "right": right, "by": by, "joins": joins}
                 check_case(case, rec)
+                if 1 <= nl <= 2 and shard["cfg"] in ("1-same", "1-ren", "2-same"):
+                    check_case(dict(case, alias_left=True), rec)
                 count += 1
                 if count % 997 == 1:
                     rec.sample({"part": "join", "left": left, "right": right, "by": by, "joins": joins})
@@ -307,6 +318,8 @@ def run_shard(shard, rec):
             for by in AGG_BY:
                 case = {"part": "agg", "items": items, "by": by}
                 check_case(case, rec)
+                if 2 <= n <= 3:
+                    check_case(dict(case, regroup=[k for k in ("k2", "k") if k not in by] or list(reversed(by))), rec)
                 count += 1
                 if count % 997 == 1:
                     rec.sample(case)
